@@ -1,6 +1,6 @@
 //! BOUNDED stand-in for `Retry::call` (tarpc/src/client/stub/retry.rs) -- property C20.
 //! Exhaustive over every policy decision sequence and every result sequence of up to MAX
-//! attempts. Checks: attempt numbers 1,2,3,... ; identical request (same Arc) each attempt;
+//! attempts, each under a live and under an elapsed context deadline. Checks: attempt numbers 1,2,3,... ; identical request (same Arc) each attempt;
 //! the policy sees each attempt's own result; the last result is returned unchanged.
 use std::cell::{Cell, RefCell};
 use std::sync::Arc;
@@ -35,7 +35,12 @@ fn retry_exhaustive_up_to_max_attempts() {
     // n = number of attempts until the policy declines
     for n in 1..=MAX {
         // every ok/err pattern over n attempts
-        for pattern in 0..(1u32 << n) {
+        // .. under a live deadline and under one that has already passed (the stub's promises do not depend on it)
+        for (pattern, elapsed) in (0..(1u32 << n)).flat_map(|p| [(p, false), (p, true)]) {
+            let mut ctx = context::current();
+            if elapsed {
+                ctx.deadline = std::time::Instant::now();
+            }
             let results: Vec<Option<u32>> = (0..n).map(|i| if pattern & (1 << i) != 0 { Some(100 + i as u32) } else { None }).collect();
             let calls = Cell::new(0usize);
             let ptrs = RefCell::new(vec![]);
@@ -47,7 +52,7 @@ fn retry_exhaustive_up_to_max_attempts() {
                 (i as usize) < n
             };
             let retry = Retry::new(Backend { calls: &calls, ptrs: &ptrs, results: &results }, policy);
-            let out = futures::executor::block_on(retry.call(context::current(), "req".to_string()));
+            let out = futures::executor::block_on(retry.call(ctx, "req".to_string()));
             evaluations += 1;
             assert_eq!(calls.get(), n, "one backend call per attempt until the policy declines");
             assert_eq!(*attempts.borrow(), (1..=n as u32).collect::<Vec<_>>(), "attempt numbers 1, 2, 3, ...");
